@@ -492,6 +492,30 @@ func lhScenario(prop string, seed uint64) *core.Scenario {
 
 func runLH(c *Check, seed uint64, i int, tier string, st *core.Stats) {
 	rs := RunSeed(seed, c.ID, i)
+	if c.ID == "C16" && i%8 == 7 {
+		// Sim E arm: the application removes a rule from the instance WHILE Execute is running (from the
+		// BeginCycle notification of cycle 2 or 3); from that cycle on the rule is neither evaluated nor fired
+		sc := gen.ScenarioFor("C10", RunSeed(seed, "C16-removal-during-execute", i), profileFor("C10"))
+		sc.Property = "C16"
+		if len(sc.Program.Rules) > 0 {
+			r := core.NewRand(core.Mix(rs, 0x16))
+			sc.Knobs.RemoveAtCycle = uint64(r.Range(2, 3))
+			sc.Knobs.RemoveAtCycleRule = sc.Program.Rules[r.Intn(len(sc.Program.Rules))].Name
+			if sc.Knobs.Listeners == 0 {
+				sc.Knobs.Listeners = 1
+			}
+			if sc.Knobs.MaxCycle < 4 {
+				sc.Knobs.MaxCycle = 4
+			}
+			for _, n := range sc.Removed {
+				if n == sc.Knobs.RemoveAtCycleRule {
+					sc.Knobs.RemoveAtCycle = 0
+				}
+			}
+			st.Probes["removal-during-execute-arm.runs"]++
+			execE("C16", sc, i, st)
+		}
+	}
 	runLHScenario(c, lhScenario(c.ID, rs), i, st, nil)
 }
 
@@ -660,6 +684,9 @@ func runLHScenario(c *Check, sc *core.Scenario, i int, st *core.Stats, keep func
 }
 
 func replayLH(c *Check, sc *core.Scenario) []core.Violation {
+	if sc.Sim == "E" { // the removal-during-execute arm of C16
+		return replayE(c, sc)
+	}
 	res := hsim.RunLib(sc)
 	if res.Harness != "" {
 		return []core.Violation{{Oracle: "HARNESS", Property: "HARNESS", Message: res.Harness}}
@@ -675,7 +702,7 @@ var realVsStubH = map[string]string{
 
 func init() {
 	Register(&Check{ID: "C16", Level: "exploration", Sim: "H", Runs: map[string]int{"quick": 24000, "thorough": 250000},
-		Rule: "histories of 4-12 operations from {build 1-3 marker rules (fresh, alive or removed names), remove at library or blueprint level, instantiate + remove on the instance, store, load (same/other/new library, overwrite true/false)} over 1-3 knowledge bases; after EVERY operation every knowledge base of every library is instantiated, stored+loaded, fetched and executed on probe facts and compared with the model; distinct = hash of all probe results; non-trivial = the history removed an alive rule or built a duplicate name",
+		Rule: "histories of 4-12 operations from {build 1-3 marker rules (fresh, alive or removed names), remove at library or blueprint level, instantiate + remove on the instance, store, load (same/other/new library, overwrite true/false)} over 1-3 knowledge bases; after EVERY operation every knowledge base of every library is instantiated, stored+loaded, fetched and executed on probe facts and compared with the model; distinct = hash of all probe results; non-trivial = the history removed an alive rule or built a duplicate name. Sim E arm (every eighth run index): a generated rule set is executed and listener 0 removes one rule from the instance inside the BeginCycle notification of cycle 2 or 3; oracles removed-rule-evaluated / removed-rule-fired",
 		Assumptions: []string{"marker rules identify their text version by the value they write; where the statement is silent (fate of the other rules of a resource rejected for a duplicate) the model adopts what it observes and asserts only what the statement says"},
 		RealVsStub:  realVsStubH, Run: runLH, Replay: replayLH,
 		RequiredProbes: []string{"removed-alive-rule", "build.duplicate-name", "load.replaced-or-added", "load.overwrite-false-on-existing", "op.inst"}})
